@@ -16,6 +16,9 @@ type RValue struct {
 	T   types.Type
 	V   Value  // the value (for pointers: the *Value)
 	Ptr *Value // non-nil: addressable location holding the value
+	// read-only flags as in package reflect: obtained through an unexported field (sticky: inherited by everything
+	// reached from it) or being an unexported embedded field itself (not inherited by its exported fields)
+	StickyRO, EmbedRO bool
 }
 
 func init() {
@@ -57,12 +60,15 @@ func init() {
 		if p == nil {
 			return RValue{}
 		}
-		return RValue{T: pt.Elem(), V: *p, Ptr: p}
+		return RValue{T: pt.Elem(), V: *p, Ptr: p, StickyRO: rv.StickyRO, EmbedRO: rv.EmbedRO}
 	}
 	intrinsics["(reflect.Value).Set"] = func(in *Interp, fn *ssa.Function, a []Value) Value {
 		dst, src := a[0].(RValue), a[1].(RValue)
 		if dst.Ptr == nil {
 			panic(goPanic{msg: "reflect: reflect.Value.Set using unaddressable value"})
+		}
+		if dst.StickyRO || dst.EmbedRO {
+			panic(goPanic{msg: "reflect: reflect.Value.Set using value obtained using unexported field"})
 		}
 		if !types.AssignableTo(src.T, dst.T) {
 			panic(goPanic{msg: "reflect.Set: value of type " + src.T.String() + " is not assignable to type " + dst.T.String()})
@@ -79,6 +85,9 @@ func init() {
 		rv := a[0].(RValue)
 		if rv.T == nil {
 			panic(goPanic{msg: "reflect: call of reflect.Value.Interface on zero Value"})
+		}
+		if rv.StickyRO || rv.EmbedRO {
+			panic(goPanic{msg: "reflect.Value.Interface: cannot return value obtained from unexported field or method"})
 		}
 		v := rv.V
 		if rv.Ptr != nil {
@@ -269,6 +278,17 @@ func init() {
 		in.visibleFields(t, nil, &out, sfNamed.Underlying().(*types.Struct))
 		return Slice{A: out}
 	}
+	// StructField.IsExported: PkgPath is empty exactly for exported fields
+	intrinsics["(reflect.StructField).IsExported"] = func(in *Interp, fn *ssa.Function, a []Value) Value {
+		sf := a[0].(Struct)
+		st := in.L.prog.ImportedPackage("reflect").Type("StructField").Type().Underlying().(*types.Struct)
+		for k := 0; k < st.NumFields(); k++ {
+			if st.Field(k).Name() == "PkgPath" {
+				return tEq(sf[k].(Term), mkStr(""))
+			}
+		}
+		panic(abort("reflect model: StructField without PkgPath"))
+	}
 	intrinsics["(reflect.StructTag).Lookup"] = func(in *Interp, fn *ssa.Function, a []Value) Value {
 		v, ok := reflect.StructTag(concStr(a[0])).Lookup(concStr(a[1]))
 		return Tuple{mkStr(v), mkBool(ok)}
@@ -288,7 +308,8 @@ func init() {
 				panic(abort("reflect model: FieldByIndex on a non-addressable or non-struct value"))
 			}
 			cell := (*rv.Ptr).(Struct)
-			rv = RValue{T: st.Field(i).Type(), V: cell[i], Ptr: &cell[i]}
+			f := st.Field(i)
+			rv = RValue{T: f.Type(), V: cell[i], Ptr: &cell[i], StickyRO: rv.StickyRO || (!f.Exported() && !f.Embedded()), EmbedRO: !f.Exported() && f.Embedded()}
 		}
 		return rv
 	}
@@ -297,7 +318,7 @@ func init() {
 		if rv.Ptr == nil {
 			panic(goPanic{msg: "reflect.Value.Addr of unaddressable value"})
 		}
-		return RValue{T: types.NewPointer(rv.T), V: rv.Ptr}
+		return RValue{T: types.NewPointer(rv.T), V: rv.Ptr, StickyRO: rv.StickyRO, EmbedRO: rv.EmbedRO}
 	}
 	intrinsics["(reflect.Value).IsNil"] = func(in *Interp, fn *ssa.Function, a []Value) Value {
 		rv := a[0].(RValue)
